@@ -15,6 +15,7 @@ TARGETS = {
     "S9": (["a", "b"], ["b"]),
     "S10": (["a", "b"], ["b"]),
     "S11": (["a", "b"], ["b"]),
+    "S12": (["w", "r"], ["w", "r"]),
 }
 
 SM_STUBS = [
@@ -96,7 +97,8 @@ class C01(SMSpec):
                     + [mkjob("S1", 2, 2, double_nsn=True, variant=4), mkjob("S3", 2, 1, double_nsn=True, variant=5)]
                     + [self.stepjob(s) for s in ("S3", "S4")]
                     + [mkjob("S11", 5, 0, ext=False, variant=2), mkjob("S8", 4, 0, ext=False, variant=1)]
-                    + [mkjob("S4", 3, 1, variant=5, default_acts=True), mkjob("S8", 3, 1, ext=False, variant=2, default_acts=True)])
+                    + [mkjob("S4", 3, 1, variant=5, default_acts=True), mkjob("S8", 3, 1, ext=False, variant=2, default_acts=True)]
+                    + [mkjob("S12", 3, 1, variant=1)])
         return ([mkjob(s, 4, 2, variant=1) for s in ("S1", "S3", "S4", "S5")]
                 + [mkjob(s, 3, 3, ext_per_iter=2, nsn_depth=2, variant=2, double_nsn=True) for s in ("S1", "S3", "S4", "S5")]
                 + [self.stepjob(s, 2, 1) for s in ("S1", "S3", "S4", "S5", "S8")])
@@ -131,7 +133,8 @@ class C04(SMSpec):
             return ([mkjob(s, 3, 2) for s in ("S1", "S2", "S3", "S4")] + [mkjob("S8", 3, 1)]
                     + [mkjob("S4", 2, 1, ext_per_iter=2, variant=2), mkjob("S8", 2, 0, ext_per_iter=2, variant=2), mkjob("S1", 2, 1, ext_per_iter=2, variant=2)]
                     + [mkjob("S3", 3, 0, variant=5, by_ref=True), mkjob("S4", 3, 1, variant=4, by_ref=True)]
-                    + [self.twinjob("S1", 3, 0), self.twinjob("S4", 3, 0)])
+                    + [self.twinjob("S1", 3, 0), self.twinjob("S4", 3, 0)]
+                    + [mkjob("S1", 1, 0, ext_per_iter=3, variant=1), mkjob("S4", 1, 0, ext_per_iter=3, variant=1), mkjob("S3", 1, 0, ext_per_iter=3, variant=2)])
         return ([mkjob(s, 4, 2, variant=3) for s in ("S1", "S2", "S3", "S4", "S8")]
                 + [mkjob(s, 3, 3, ext_per_iter=2, nsn_depth=2, variant=4) for s in ("S1", "S2", "S4", "S8")])
 
